@@ -19,6 +19,7 @@ Theorem C15_read_charge_exact :
   id_ok = true /\ sig_ok = true /\ 0 < ctr /\
   let last := ss_read_last blobber client alloc (st_reads s) in
   ss_last0 last <= ctr /\ (match last with Some n => n <= ctr | None => True end) /\
+  ctr - ss_last0 last <= (2 ^ 63 - 1) / ss_CHUNK /\
   exists a d b,
     ss_find_alloc alloc (st_allocs s) = Some a /\ ss_find_ba blobber (al_bas a) = Some d /\
     ss_find_blobber blobber (st_blobbers s) = Some b /\ al_start a <= ts <= al_exp a /\
@@ -61,30 +62,23 @@ Theorem C15_foreign_signature_rejected :
 Proof. exact ss_read_foreign_rejected. Qed.
 Print Assumptions C15_foreign_signature_rejected.
 
-(* The statement "the charge is the price times the newly read size" for ALL counters is false of
-   the code: numReads * CHUNK_SIZE is an unchecked int64 product.  2^50 new blocks (2^66 bytes) wrap
-   to 0 bytes and are free. *)
-Definition C15_full_statement : Prop :=
-  forall rp n, 0 <= rp < 2 ^ 64 -> 0 <= n < 2 ^ 63 -> ss_read_value rp n = rp * n / 16384.
-
-Theorem C15_refuted_huge_counter : ss_read_value 100000000 (2 ^ 50) = 0 /\ 100000000 * 2 ^ 50 / 16384 = 6871947673600000000.
-Proof. vm_compute. split; reflexivity. Qed.
-
-Theorem C15_full_statement_refuted : ~ C15_full_statement.
-Proof.
-  intros H. specialize (H 100000000 (2 ^ 50)). destruct C15_refuted_huge_counter as [E1 E2]. rewrite E1, E2 in H.
-  assert (X : 0 = 6871947673600000000) by (apply H; split; vm_compute; congruence). discriminate X.
-Qed.
-Print Assumptions C15_full_statement_refuted.
+(* The counter delta accepted by the code is small enough that delta * 64KB fits int64 (range check
+   added by /repo commit 0157bec after this check found 2^50 blocks being charged 0): the charge is
+   computed from the true byte count. *)
+Theorem C15_size_does_not_wrap :
+  forall rp n, 0 <= n <= (2 ^ 63 - 1) / ss_CHUNK ->
+  ss_read_value rp n = f64_to_u64 (f64_mul (f64_of_Z rp) (ss_size_gb (n * ss_CHUNK))).
+Proof. exact ss_read_value_no_wrap. Qed.
+Print Assumptions C15_size_does_not_wrap.
 
 (* Non-vacuity: on the witness state a client locks a read pool, redeems counter 16384 (1 GB at
    1e8 per GB costs exactly 1e8), replays it (accepted, charges 0), an older one and a forged one
-   are rejected; prices at the edges of uint64 convert to finite floats and charge exactly. *)
+   are rejected, so is a counter 2^50 blocks ahead; prices at the edges of uint64 convert to finite floats and charge exactly. *)
 Example C15_example :
   let txs := [(1040, 1010, OpRPLock 100 100 5000000000); (1041, 1011, OpRead 100 1 1 1041 16384 true true);
               (1042, 1012, OpRead 100 1 1 1042 16384 true true); (1043, 1013, OpRead 100 1 1 1043 16383 true true);
-              (1044, 1014, OpRead 100 1 1 1044 20000 true false)] in
-  snd (ss_run sw_conf sw_killed_state txs) = [true; true; true; false; false] /\
+              (1044, 1014, OpRead 100 1 1 1044 20000 true false); (1045, 1015, OpRead 100 1 1 1045 1125899906859008 true true)] in
+  snd (ss_run sw_conf sw_killed_state txs) = [true; true; true; false; false; false] /\
   ss_assoc0 100 (st_rpools (fst (ss_run sw_conf sw_killed_state txs))) = 4900000000 /\
   ss_read_value 100000000 16384 = 100000000 /\ ss_read_value 18446744073709551615 0 = 0 /\
   ss_read_value 9007199254740993 0 = 0 /\ ss_read_value 123456789 163840 = 1234567890.
